@@ -82,6 +82,22 @@ func fcEval(decls []string, expr string) string {
 	return s
 }
 
+// fcAffineOffset returns k when expr (mentioning the loop variable X) evaluates to X + k for
+// X = 0, 1, 2 with the function's constants; "" otherwise.
+func fcAffineOffset(decls []string, X, expr string) string {
+	var v [3]string
+	for i := range v {
+		v[i] = fcEval(append(append([]string{}, decls...), fmt.Sprintf("%s = %d", X, i)), expr)
+		if v[i] == "" {
+			return ""
+		}
+	}
+	if fcEval(nil, v[1]+" - "+v[0]) != "1" || fcEval(nil, v[2]+" - "+v[1]) != "1" {
+		return ""
+	}
+	return v[0]
+}
+
 type fcFacts struct {
 	chunkSize, chunkStep, chunkSpan string // "" = unknown
 	chunkConst                      string // source text of the constant (comment only)
@@ -227,6 +243,13 @@ func fcChunked(fset *token.FileSet, file *ast.File, fa *fcFacts) {
 				}
 				if be, ok := rhs.(*ast.BinaryExpr); ok && be.Op == token.ADD && txt(be.X) == X {
 					E, spanExpr = txt(a.Lhs[0]), src(fset, be.Y)
+					skip[st] = true
+					continue
+				}
+				// any other constant-affine expression X + k (e.g. `start + chunkSize - 1`): its value at
+				// X = 0, provided it grows by exactly 1 per unit of X at the points 0, 1, 2
+				if v := fcAffineOffset(decls, X, src(fset, rhs)); v != "" {
+					E, spanExpr = txt(a.Lhs[0]), v
 					skip[st] = true
 					continue
 				}
